@@ -92,6 +92,78 @@ def _facts_under(run, F, fn, g, site, edge_ok):
     return out
 
 
+def pin_relay(run, rid="R6"):
+    """The PIN handed to the Ledger dongle class reaches the device whole: shared by C09 / C10 / C18."""
+    P, A = run.P, run.A
+    from sa.decide import Walker
+    D = P.cls("ledger.hsm2dongle.HSM2Dongle")
+    sp = P.method(D, "_send_pin")
+    g = A.cfg(sp, D)
+    run.rule(rid, "PIN relay (Ledger): _send_pin(pin, prepend_length) sends SEND_PIN | u8(i) | u8(X[i]) for every i in 0..len(X)-1, in order, with X = u8(len(pin)) | pin "
+             "when prepend_length and X = pin otherwise (ui/src/pin.c: update_pin_buffer stores byte i, the length-prefixed form is what set_pin / CHANGE_PIN / WIPE read); "
+             "unlock passes (pin, False), new_pin and onboard pass (pin, True).")
+    pinp, prep = sp.params[1], sp.params[2]
+
+    def atom(e):
+        if isinstance(e, ast.Name) and e.id == prep:
+            return ("PREP", True)
+        return None
+    n_cases = 0
+    for lf in Walker(A, sp, D, atom, stop_at_for=True).walk(g.entry):
+        if lf.kind != "stop" or not isinstance(lf.node.ast, ast.For):
+            run.check(rid, lf.kind == "exit" and False, "every path of _send_pin reaches the sending loop", key="_send_pin|no-loop", where=sp.loc(),
+                      message=f"_send_pin can finish (`{lf.kind}` at line {lf.node.lineno}) without sending the PIN")
+            continue
+        loop = lf.node.ast
+        p_ = lf.pc.get("PREP")
+        n_cases += 1
+        want_x = _strip(f"bytes([len({pinp})]) + {pinp}") if p_ else pinp
+        it = lf.deep(loop.iter)
+        # the sequence iterated and how index / byte are obtained from it
+        X = idx = byte = None
+        body_calls = [c for st_ in loop.body for c in ast.walk(st_) if isinstance(c, ast.Call) and call_name(c) == "_send_command"]
+        if isinstance(it, ast.Call) and norm(it.func) == "range" and len(it.args) == 1 and isinstance(it.args[0], ast.Call) and norm(it.args[0].func) == "len" \
+                and isinstance(loop.target, ast.Name):
+            X, idx = _strip(norm(it.args[0].args[0])), loop.target.id
+            byte = ("index", idx)
+        elif isinstance(it, ast.Call) and norm(it.func) == "enumerate" and len(it.args) == 1 and isinstance(loop.target, ast.Tuple) and len(loop.target.elts) == 2 \
+                and all(isinstance(e, ast.Name) for e in loop.target.elts):
+            X, idx = _strip(norm(it.args[0])), loop.target.elts[0].id
+            byte = ("name", loop.target.elts[1].id)
+        elif isinstance(it, ast.Call) and norm(it.func) == "zip" and len(it.args) == 2 and isinstance(loop.target, ast.Tuple) and len(loop.target.elts) == 2 \
+                and all(isinstance(e, ast.Name) for e in loop.target.elts) and isinstance(it.args[0], ast.Call) and norm(it.args[0].func) == "range" \
+                and len(it.args[0].args) == 1 and _strip(norm(it.args[0].args[0])) == _strip(f"len({norm(it.args[1])})"):
+            X, idx = _strip(norm(it.args[1])), loop.target.elts[0].id
+            byte = ("name", loop.target.elts[1].id)
+        okx = X == want_x
+        run.check(rid, okx, f"[prepend_length={bool(p_)}] the loop runs over every byte of {'length | pin' if p_ else 'the pin'}", key=f"_send_pin|sequence|{bool(p_)}", where=sp.loc(loop),
+                  message=f"with prepend_length={bool(p_)} _send_pin iterates `{norm(it)[:70]}` (sequence `{X}`); expected every index of `{want_x}`: bytes of the PIN "
+                          "(the last one, typically) never reach the device, which then rejects or installs a truncated PIN")
+        oks = False
+        if len(body_calls) == 1 and len(body_calls[0].args) == 2 and X is not None:
+            c = body_calls[0]
+            m_ = P.const_eval(c.args[0], sp.module, cls=D) if True else None
+            payload = lf.deep(c.args[1], stop=(idx,) + ((byte[1],) if byte and byte[0] == "name" else ()))
+            xs_ = norm(ast.Subscript(value=ast.parse(X, mode="eval").body, slice=ast.Name(id=idx, ctx=ast.Load()), ctx=ast.Load()))
+            wantp = f"bytes([{idx}, {xs_}])" if byte[0] == "index" else f"bytes([{idx}, {byte[1]}])"
+            oks = isinstance(m_, EnumMember) and m_.name == "SEND_PIN" and _strip(norm(payload)) == _strip(wantp) and len(loop.body) == 1
+        run.check(rid, oks, f"[prepend_length={bool(p_)}] each byte is sent as SEND_PIN | index | byte", key=f"_send_pin|message|{bool(p_)}", where=sp.loc(loop),
+                  message=f"_send_pin's loop body is `{'; '.join(norm(x)[:60] for x in loop.body)}`; expected one SEND_PIN exchange carrying (index, byte at that index)")
+    run.floor(rid, "_send_pin cases (with / without the length prefix)", n_cases, 2)
+    for mname, wantp in (("unlock", False), ("new_pin", True), ("onboard", True)):
+        m = P.method(D, mname)
+        cs = find_calls(A, m, "_send_pin")
+        okc = len(cs) == 1
+        if okc:
+            c = cs[0]
+            a0 = c.args[0] if c.args else None
+            a1 = c.args[1] if len(c.args) > 1 else next((k.value for k in c.keywords if k.arg == prep), None)
+            okc = a0 is not None and norm(a0) == "pin" and "pin" in m.params and isinstance(a1, ast.Constant) and a1.value is wantp
+        run.check(rid, okc, f"{mname} sends its pin argument {'with' if wantp else 'without'} the length prefix", key=f"HSM2Dongle.{mname}|send_pin-args", where=m.loc(),
+                  message=f"HSM2Dongle.{mname} does not call _send_pin(pin, prepend_length={wantp}) exactly once: the firmware reads the PIN "
+                          f"{'after a length byte' if wantp else 'as a plain string'} for this command")
+
+
 def run(run):
     P, A = run.P, run.A
     F = Facts(A)
@@ -109,6 +181,7 @@ def run(run):
         c09._device_reports(run)
     finally:
         run.rid_prefix = ""
+    pin_relay(run, "R6")
     _changepin(run, F, PV)
     _pubkeys(run, F, PV)
     # the PIN policy itself (shared with C10)
